@@ -254,7 +254,14 @@ class Optic:
                 surface
         """
         surface = self.surface_group.surfaces[surface_number]
-        surface.geometry.c[aspher_coeff_idx] = value
+        coeffs = surface.geometry.c
+        if not isinstance(coeffs, list):
+            # coefficients given as a tuple or an array: keep an editable list
+            # of floats (an integer array would truncate the value, a tuple
+            # cannot be assigned to)
+            coeffs = [float(c) for c in coeffs]
+            surface.geometry.c = coeffs
+        coeffs[aspher_coeff_idx] = value
 
     def set_polarization(self, polarization: Union[PolarizationState, str]):
         """
